@@ -718,7 +718,7 @@ func runFinOvertake(id int, xIsClient bool, yClosesFirst bool) {
 // transport is closed (Stop's forced close does that).  Then Close and Stop on the flooded end.
 // Oracle: every call returns within the bound, the tube is closed after Stop, no goroutine left.
 func runFullQueue(id int, variant string, flood int) (okRun bool) {
-	desc := fmt.Sprintf("#%d full-sender-queue link=%s duplicates=%d ops=[c.Close;c.Stop;s.Stop]", id, variant, flood)
+	desc := fmt.Sprintf("#%d full-sender-queue link=%s duplicates=%d ops=[c.Write x3 (slow link only);c.Close;c.Stop;s.Stop]", id, variant, flood)
 	fmt.Fprintf(os.Stderr, "START %s\n", desc)
 	goBefore := runtime.NumGoroutine()
 	ca, cb, _ := newLink(uint64(id) + 991)
@@ -789,8 +789,31 @@ func runFullQueue(id int, variant string, flood int) (okRun bool) {
 		default:
 		}
 	}
-	// the retransmission ticker of the flooded tube (period <= 9/8 * 333 ms) fires at least once
-	time.Sleep(600 * time.Millisecond)
+	type r3 struct {
+		ok bool
+		e  string
+		d  time.Duration
+	}
+	// While the flood lasts the receiver re-fills the queue within microseconds after every frame
+	// Reliable.send takes out.  On the slow link three Writes signal windowOpen during the flood, so
+	// that send's select takes its window branch (which needs the tube lock) while the queue is full;
+	// the retransmission ticker (its period doubles on an idle tube) may fire as well.
+	var wres []chan r3
+	if variant == "slow" {
+		time.Sleep(100 * time.Millisecond)
+		for i := 0; i < 3; i++ {
+			ch := make(chan r3, 1)
+			go func() {
+				o, e, d := within(bound, func() error { _, e := ctube.Write([]byte("w")); return e })
+				ch <- r3{o, e, d}
+			}()
+			wres = append(wres, ch)
+			time.Sleep(60 * time.Millisecond)
+		}
+		time.Sleep(320 * time.Millisecond)
+	} else {
+		time.Sleep(600 * time.Millisecond)
+	}
 	st0, _, _, okS := func() (int, bool, bool, bool) {
 		var a int
 		var b, c bool
@@ -800,11 +823,6 @@ func runFullQueue(id int, variant string, flood int) (okRun bool) {
 	note("stateBefore=%d(sampled=%v)", st0, okS)
 	qn, qcap := ctube.VerifSenderQueue()
 	note("senderQueue=%d/%d", qn, qcap)
-	type r3 struct {
-		ok bool
-		e  string
-		d  time.Duration
-	}
 	chClose, chStop := make(chan r3, 1), make(chan r3, 1)
 	go func() { o, e, d := within(bound, func() error { return ctube.Close() }); chClose <- r3{o, e, d} }()
 	time.Sleep(20 * time.Millisecond)
@@ -812,9 +830,15 @@ func runFullQueue(id int, variant string, flood int) (okRun bool) {
 	rc, rstop := <-chClose, <-chStop
 	note("c.Close=%v/%q(%dms)", rc.ok, rc.e, rc.d.Milliseconds())
 	note("c.Stop=%v(%dms)", rstop.ok, rstop.d.Milliseconds())
-	okRun = rc.ok && rstop.ok
+	wok := true
+	for i, ch := range wres {
+		rw := <-ch
+		note("c.Write%d=%v/%q(%dms)", i, rw.ok, rw.e, rw.d.Milliseconds())
+		wok = wok && rw.ok
+	}
+	okRun = rc.ok && rstop.ok && wok
 	blocked := ""
-	if !rc.ok || !rstop.ok {
+	if !okRun {
 		// where the goroutines of the code under test are parked (evidence for the replay)
 		buf := make([]byte, 1<<20)
 		buf = buf[:runtime.Stack(buf, true)]
@@ -843,8 +867,8 @@ func runFullQueue(id int, variant string, flood int) (okRun bool) {
 			}
 		}
 	}
-	if !rc.ok || !rstop.ok {
-		fail("C16:call-did-not-return-full-sender-queue", fmt.Sprintf("the tube's sender queue was filled by acknowledgements of %d duplicated data frames while the link was %s: Close returned=%v, Stop returned=%v within %v (the muxer receiver blocks on the full queue holding the tube lock; the queue's only consumer Reliable.send waits for that lock in its ticker/window branch)", flood, variant, rc.ok, rstop.ok, bound))
+	if !okRun {
+		fail("C16:call-did-not-return-full-sender-queue", fmt.Sprintf("the tube's sender queue was filled by acknowledgements of %d duplicated data frames while the link was %s: Close returned=%v, Stop returned=%v, Writes returned=%v within %v (the muxer receiver blocks on the full queue holding the tube lock; the queue's only consumer Reliable.send waits for that lock in its ticker/window branch)", flood, variant, rc.ok, rstop.ok, wok, bound))
 	} else {
 		if rc.e != "" && rc.e != "EOF" {
 			fail("C16:close-error", "Close: "+rc.e)
